@@ -9,8 +9,8 @@
 #include "vsched.h"
 
 // ---- scenario rows ---------------------------------------------------------------------------------
-enum { F_2BLK, F_3BLK, F_BADCHECK_LAST, F_BAD_FIRST, F_TRUNC, F_UNSIZED_MID, F_EMPTY_MID, F_BADHDR, F_BADINDEX, F_BCJ_BAD, F_2STREAMS, F_BIGBLK, F_BAD_MID3, F_UNSUP_2ND, F_INITFAIL_3RD, F_N };
-static const char *FN[] = { "2blk", "3blk", "badcheck-last", "bad-first", "trunc-mid", "unsized-mid", "empty-mid", "bad-blockheader", "bad-index", "bcj-bad-payload", "2streams+pad", "big-40k", "bad-mid-of-3", "unsupported-filter-2nd", "filter-init-fails-3rd" };
+enum { F_2BLK, F_3BLK, F_BADCHECK_LAST, F_BAD_FIRST, F_TRUNC, F_UNSIZED_MID, F_EMPTY_MID, F_BADHDR, F_BADINDEX, F_BCJ_BAD, F_2STREAMS, F_BIGBLK, F_BAD_MID3, F_UNSUP_2ND, F_INITFAIL_3RD, F_4TRUNC, F_N };
+static const char *FN[] = { "2blk", "3blk", "badcheck-last", "bad-first", "trunc-mid", "unsized-mid", "empty-mid", "bad-blockheader", "bad-index", "bcj-bad-payload", "2streams+pad", "big-40k", "bad-mid-of-3", "unsupported-filter-2nd", "filter-init-fails-3rd", "4blk-trunc-in-4th" };
 typedef struct { int file, threads, inchunk, outchunk, timeout; uint32_t flags; uint64_t mlt, mls; int raise, early, reinit, probes; int bp, bt, bs; int tier; int mode; } row;	// mode: 0 normal, 1 truncation sweep over the second Block, 2 drain with no input after the Blocks were supplied
 #define NOLIM UINT64_MAX
 // tier: 0 = quick+thorough, 1 = thorough only.  bp/bt/bs = preemption / timeout / spurious bounds at quick; thorough adds 1 to bp for 2-thread rows.
@@ -68,6 +68,9 @@ static const row ROWS[] = {
 	{ F_3BLK,           2, 0,  3,  0, 0,                    NOLIM, NOLIM, 0,    0,    0,     0,     1, 0, 0, 0, 2 },	// all Blocks supplied, then LZMA_RUN calls without input until everything decodable has arrived
 	{ F_2BLK,           2, 7,  1,  0, 0,                    NOLIM, NOLIM, 0,    0,    0,     0,     1, 0, 0, 0, 2 },
 	{ F_3BLK,           3, 7,  1,  0, 0,                    NOLIM, NOLIM, 0,    0,    0,     0,     1, 0, 0, 1, 2 },
+	{ F_4TRUNC,         2, 0,  1,  0, 0,                    NOLIM, NOLIM, 0,    0,    0,     0,     1, 0, 0, 0 },	// four Blocks on two threads, output read one byte at a time, input ends inside the fourth (its worker was used before)
+	{ F_4TRUNC,         2, 9,  2,  0, 0,                    NOLIM, NOLIM, 0,    0,    0,     0,     1, 0, 0, 0 },
+	{ F_4TRUNC,         2, 0,  1,  0, 0,                    NOLIM, NOLIM, 0,    0,    0,     0,     2, 0, 0, 1 },
 	{ F_BIGBLK,         2, 0,  0,  0, 0,                    NOLIM, NOLIM, 0,    0,    0,     0,     1, 0, 0, 0 },
 	{ F_BIGBLK,         2, 4096, 8192, 0, 0,                NOLIM, NOLIM, 0,    0,    0,     1,     1, 0, 0, 1 },
 	{ F_BIGBLK,         2, 0,  4096, 0, 0,                  NOLIM, NOLIM, 0,    0,    0,     0,     1, 0, 0, 1, 2 },
@@ -84,11 +87,12 @@ static const row ROWS[] = {
 // ---- input construction ----------------------------------------------------------------------------
 static unsigned char plain[65536], comp[65536 + 4096]; static size_t plen, clen, full_clen; static mk_layout LAY;
 static int build_file(int kind) {
-	size_t bsz = 6; mk_block b[4]; int nb = 2; mk_layout lay; memset(&lay, 0, sizeof lay);
+	size_t bsz = 6; mk_block b[5]; int nb = 2; mk_layout lay; memset(&lay, 0, sizeof lay);
 	for (size_t i = 0; i < sizeof plain; i++) plain[i] = "abcab"[i % 5] ^ (unsigned char)((i / 1500) * 3);
 	plain[0] = 0xE8;
 	switch (kind) {
 	case F_3BLK: case F_BAD_MID3: case F_INITFAIL_3RD: nb = 3; break;
+	case F_4TRUNC: nb = 4; break;
 	case F_UNSIZED_MID: case F_EMPTY_MID: nb = 3; break;
 	case F_BIGBLK: nb = 2; bsz = 40000 / 2 + 500; break;
 	}
@@ -103,6 +107,7 @@ static int build_file(int kind) {
 	case F_BAD_FIRST: comp[lay.off[0] + lay.hdr[0] + 3] ^= 0x04; break;
 	case F_BAD_MID3: comp[lay.off[1] + lay.hdr[1] + 3] ^= 0x04; break;
 	case F_TRUNC: clen = lay.off[1] + lay.total[1] / 2; break;
+	case F_4TRUNC: clen = lay.off[3] + lay.total[3] / 2; break;
 	case F_BADHDR: comp[lay.off[1] + 1] ^= 0x40; break;
 	case F_BADINDEX: comp[lay.index_off + 2] ^= 0x01; break;
 	case F_BCJ_BAD: comp[lay.off[0] + lay.hdr[0] + 4] ^= 0x10; break;
